@@ -36,8 +36,10 @@ def _cases(draw):
     for n, _ in model.walk(form["nodes"]):
         if n["k"] == "q" and n["c"].get("type") == "text" and g.p("_", 0.06):
             n["c"]["type"] = g.pick(LEGACY_TYPES)
-            for k in [k for k in n["c"] if k.split("::")[0] in ("hint", "guidance_hint", "parameters", "appearance", "default")]:
+            for k in [k for k in n["c"] if k.split("::")[0] in ("parameters", "appearance", "default")]:
                 del n["c"][k]
+            if g.p("_", 0.5) and not any(k.split("::")[0] == "hint" for k in n["c"]):
+                n["c"]["hint"] = g.text("H")       # the author's own hint on a type that has a default hint
     return {"form": form}
 
 
